@@ -269,7 +269,12 @@ def subs_consistency(name, params, point, ks):
         res["construct_error"] = _err(e, "construct")
         return res
     try:
-        before = [str(d1.get_moment(k)) for k in ks]
+        before = []
+        for k in ks:
+            try:
+                before.append(str(d1.get_moment(k)))
+            except Exception as e:  # noqa  (sympy.stats families refuse symbolic parameters)
+                before.append("refused:" + type(e).__name__)
         d1.subs(pt)
         d2.subs(pt)
         res["str_after"] = str(d1)
